@@ -104,12 +104,21 @@ def _max_uid(t):
     return best
 
 
+def by_names(log):
+    return {e[0] for e in log}
+
+
 def refine_frame(ex, st, pre_heap, log, uid0):
     """after the coarse havoc: objects the body provably never writes keep their pre-loop contents.
     A logged write location counts as loop-invariant when its term mentions no constant created
     since the havoc (serial >= uid0): it then depends only on state the loop does not change."""
     from .symexec import role_of, owner_of
     alive_pre = pre_heap.get("$alive")
+    if alive_pre is not None and "$alive" in by_names(log):
+        # allocation only ever adds objects
+        o = z3.Int(f"lo!{next(_uid)}")
+        st.assume(smt.forall([o], z3.Implies(alive_pre[o], st.heap["$alive"][o]), [alive_pre[o]]))
+        st.assume(smt.forall([o], z3.Implies(alive_pre[o], st.heap["$alive"][o]), [st.heap["$alive"][o]]))
     by_heap = {}
     for (name, at, hint, fresh_obj, preds) in log:
         by_heap.setdefault(name, []).append((at, hint, fresh_obj, preds))
@@ -241,9 +250,9 @@ def for_over(ex, stmt, st, it):
     seqsv = SV("seq", S0, Ty("seq", args=[ety] if ety else []))
     check_invs(ex, st, invs, {"_i": SV("int", z3.IntVal(0), T("int")), "_it": seqsv}, lk + "-init", stmt)
     # havoc
+    ex.named_heap(st, "$alive")
     pre_heap = dict(st.heap)
-    ex.heap_get(st, "$alive")
-    pre_heap.setdefault("$alive", st.heap["$alive"])
+    pre_heap["$alive"] = ex.named_heap(st, "$alive")
     uid0 = next(_uid)
     havoc_locals(ex, st, names, ends)
     havoc_writes(ex, st, writes)
@@ -298,9 +307,9 @@ def exec_while(ex, stmt, st):
     writes, ends, _ = trial(ex, st, iteration)
     names = assigned_names(stmt.body, st.env)
     check_invs(ex, st, invs, {}, lk + "-init", stmt)
+    ex.named_heap(st, "$alive")
     pre_heap = dict(st.heap)
-    ex.heap_get(st, "$alive")
-    pre_heap.setdefault("$alive", st.heap["$alive"])
+    pre_heap["$alive"] = ex.named_heap(st, "$alive")
     uid0 = next(_uid)
     havoc_locals(ex, st, names, [(s, oc) for s, oc in ends if oc and oc[0] == "continue"])
     havoc_writes(ex, st, writes)
